@@ -155,7 +155,8 @@ def expand_fields(fields, schema_fields):
         spec = fields.pop('*')
         for sf in schema_fields:
             sf_name = sf['name']
-            if sf_name not in existing_names:
+            # (an explicit entry for a target field of that name wins over the wildcard)
+            if sf_name not in existing_names and sf_name not in fields:
                 fields[sf_name] = copy.deepcopy(spec)
                 fields[sf_name]['name'] = sf_name
 
